@@ -266,7 +266,7 @@ theorem augmented_cov [Zero α] (x : Container α) (h : WF x) (a : Nat) (q : Nat
     (∀ r c, r < a → c < a →
       (augmented x a q mean2).cov.get (x.dimCovariance + r) (i * (x.dimCovariance + a) + x.dimCovariance + c)
         = q r c) := by
-  have hk := h.pos
+  have hk : 1 ≤ x.components := by omega
   have hcr := h.covRows
   have hcc := h.covCols
   generalize hd : x.dimCovariance = d at *
